@@ -294,6 +294,8 @@ def _bt_shapes():
         out.append(("u12_shift_from_n%d" % n, "u12_shift_from(%d)" % n, False, ("quick", "thorough") if n in (0, 4, 7) else ("thorough",)))
     for n in range(0, 9):
         out.append(("u12_number_n%d" % n, "u12_number_and_last(%d)" % n, False, ("quick", "thorough") if n in (0, 3, 4, 8) else ("thorough",)))
+    for n in range(0, 9):
+        out.append(("u12_position_n%d" % n, "u12_position(%d)" % n, False, ("quick", "thorough") if n in (0, 1, 3, 8) else ("thorough",)))
     # rebalance: (np, at, nl, nr, inner)
     quick = {(4, 1, 8, 8, True), (4, 1, 4, 8, True), (4, 1, 4, 4, True), (4, 4, 4, 0, True), (4, 0, 0, 5, False), (4, 0, 0, 4, False)}
     for inner in (False, True):
@@ -724,3 +726,5 @@ PROPS["C07"]["claim"] = PROPS["C07"]["claim"].replace("iter_values visits every 
 PROPS["C07"]["does_not_cover"] = ["histories, restarts", "frame of change_ref (other entry bytes untouched)", "the chain reader under iter_while (bounded under C06)", "btree-indexed ref-counted columns"]
 PROPS["C04"]["claim"] = "Point reads: DbInner::get / get_size on a btree column consult the commit overlay first (a queued value wins, a queued removal hides the stored value) and otherwise return what the tree holds, get_size being the length of what get returns (Kani, bounded: overlay lookup and BTreeTable::get by contract). " + PROPS["C04"]["claim"]
 PROPS["C10"]["claim"] = PROPS["C10"]["claim"].replace("Writer side:", "Node reads (bounded: one node shape; overlay lookup and HashColumn::get_value by contract): DbInner::get_node / get_node_children return the node queued in the commit overlay at that address if there is one and otherwise the node the column holds, unpacked into exactly the stored data and child order, and report absent exactly when neither has it. Writer side:")
+PROPS["C04"]["claim"] = PROPS["C04"]["claim"].replace("number_separator / last_separator_index / need_rebalance are exact;", "number_separator / last_separator_index / need_rebalance are exact; position() returns, for every node content (keys of 1-2 arbitrary bytes, not assumed sorted) and every search key, the first separator that is not smaller than the key, reports a match exactly when that separator equals the key, and every separator before it is strictly smaller (complete for the node sizes 0..=8);")
+PROPS["C04"]["does_not_cover"] = ["BTreeIterState::{seek, next, exit} (walk over the node stack)", "whole-tree order and uniform depth over histories", "insert / split path (Node::change)", "keys longer than 2 bytes in position() (same comparison, slice cmp)"]
